@@ -747,3 +747,63 @@ def r17_extents_follow_the_lines(ck, P, rid='C12-R17'):
             ck.violation(R, g.name, 'box.%s from an end point' % lf.split('.')[1], '%s folds the x coordinate of a line end point into box.%s as it is (%s): when that point lies strictly between the trapezoid\'s top and bottom the line - and the shape - continues beyond it, so the temporary mask of the mask route is too narrow and cuts the trapezoid, while the direct route (and rasterising into a full-size mask) draws all of it' % (g.name, lf.split('.')[1], x.loc()), x.loc())
     if n == 0:
         raise AnalysisBroken('%s: no store of a line point into the box found in %s' % (rid, g.name))
+
+
+def r18_error_term_interval_is_closed(ck, P, rid='C12-R18'):
+    """Interval typestate of the edge walker: pixman_edge_init starts every edge at (x, e = -dy) - the line passes exactly through x -
+    and stepping downwards renormalises only when the new error term is > 0, so the error term lives in the closed interval [-dy, 0].
+    Stepping upwards must keep the same interval: renormalising already at e == -dy moves an edge that has not moved at all
+    (dx == 0, or n * dx == 0) one unit to the left, and a side is then drawn differently when its upper point lies below the first
+    sample row."""
+    R = ck.rule(rid, 'in pixman_edge_step the carry into x happens only when the advanced error term leaves the closed interval [-dy, 0]: it is compared strictly with both ends (ne > 0 when stepping down, ne < -dy when stepping up); a non-strict test renormalises the start state e = -dy of pixman_edge_init and shifts a vertical (or integer-slope) side by 1/65536 when it is stepped upwards, so the same line is rasterised differently depending on where its defining points lie', floor=2)
+    fs = [f for f in P.functions() if f.name == 'pixman_edge_step']
+    if not fs:
+        raise AnalysisBroken('%s: pixman_edge_step not found' % rid)
+    n = 0
+    for f in fs:
+        ck.saw(f)
+        # NE: the 64-bit value whose truncation is stored into pixman_edge.e first
+        NE = None
+        for x in f.insts():
+            if x.op == 'store' and f.last_field(f.path(x.a[1])) == 'pixman_edge.e':
+                y = f.v(f.strip_casts(x.a[0]))
+                if y is not None and y.op == 'add' and y.ty == 'i64':
+                    NE = y; break
+        if NE is None:
+            raise AnalysisBroken('%s: the advanced error term of pixman_edge_step was not recognised' % rid)
+        def is_neg_dy(o):
+            y = f.v(f.strip_casts(o)) if o[0] == 'v' else None
+            if y is None or y.op != 'sub' or not (y.a[0][0] == 'c' and int(y.a[0][1]) == 0):
+                return False
+            z = f.v(f.strip_casts(y.a[1]))
+            return z is not None and z.op == 'load' and f.last_field(f.path(z.a[0])) == 'pixman_edge.dy'
+        for b in f.blocks:
+            t = b.term
+            if t.op != 'br' or not t.a:
+                continue
+            c, p, ops = f.cond(t.a[0])
+            if c is None or c.op != 'icmp' or len(ops) != 2:
+                continue
+            sw = {'slt': 'sgt', 'sgt': 'slt', 'sle': 'sge', 'sge': 'sle'}
+            a0, a1 = ops
+            if list(a1) == ['v', NE.i]:
+                a0, a1 = a1, a0; p = sw.get(p, p)
+            if list(a0) != ['v', NE.i]:
+                continue
+            end = 'zero' if (a1[0] == 'c' and int(a1[1]) == 0) else 'neg_dy' if is_neg_dy(a1) else None
+            if end is None:
+                continue
+            n += 1
+            where = '%s: test of the error term against %s at %s' % (f.name, '0' if end == 'zero' else '-dy', t.loc())
+            # the side of the branch that contains a store to pixman_edge.e is the renormalising one
+            def renorm(bb):
+                return any(q.op == 'store' and f.last_field(f.path(q.a[1])) == 'pixman_edge.e' for q in f.blocks[bb].insts)
+            on_true = renorm(t.d['succ'][0]); on_false = renorm(t.d['succ'][1])
+            eff = p if on_true else f.INV.get(p, p) if on_false else None
+            want = 'sgt' if end == 'zero' else 'slt'
+            if eff == want:
+                ck.ok(R, where, 'strict')
+            else:
+                ck.violation(R, f.name, 'renormalisation test against %s' % ('0' if end == 'zero' else '-dy'), '%s renormalises its error term when ne %s %s (%s) instead of strictly outside [-dy, 0]: the start state e = -dy (or the end state e = 0) of an edge that has not moved is renormalised, x changes by one unit, and a vertical or integer-slope side is rasterised one 1/65536 further left when it is stepped upwards than when it is stepped downwards' % (f.name, {'sle': '<=', 'sge': '>=', 'slt': '<', 'sgt': '>', None: '?'}.get(eff, eff), '0' if end == 'zero' else '-dy', t.loc()), t.loc())
+    if n < 2:
+        raise AnalysisBroken('%s: the two renormalisation tests of pixman_edge_step were not both recognised (%d)' % (rid, n))
